@@ -59,8 +59,8 @@ struct iwxstr* iwxstr_clone(const struct iwxstr *xstr) {
   }
   if (xstr->size) {
     memcpy(ret->ptr, xstr->ptr, xstr->size);
-    xstr->ptr[xstr->size] = '\0';
   }
+  ret->ptr[ret->size] = '\0';
   return ret;
 }
 
